@@ -8,6 +8,7 @@ slot by slot with  [C] i[rho,HI] - [N] {GammaRho,rho} + [O] InteractionsRho  and
 -[G] s*GammaScalar + [S] InteractionsScalar  (commutator tables from C02).  The flat-array layout
 is checked at all binding sites, and the wiring of the GSL driver in Evolve is checked against the
 fields it must read."""
+from guarded import same, explain
 import itertools
 
 from astdb import AnalysisBroken
@@ -114,7 +115,7 @@ def check_config(db, rep, cfg, tier):
         this, hooks, it = sm.new_solver(db, nx, nsun, nrhos, nscalars)
         set_switches(db, it, this, bits)
         yin = Region('yin', numeqn, lambda k: Poly.var('Y%d' % k), 'heap')
-        yout = Region('yout', numeqn, None, 'heap')
+        yout = Region('yout', numeqn, lambda k: Poly.var('STALE%d' % k), 'heap')  # what the stepper left in the derivative buffer
         tau = Poly.var('tau')
         hooks.hook_calls = []
         try:
@@ -147,7 +148,7 @@ def check_config(db, rep, cfg, tier):
                         got = yout.cell(base + k).value
                     except Exception:
                         got = None
-                    if not (isinstance(got, Poly) and got.equals(want)):
+                    if not (same(got, want)):
                         bad = ('rho node %d matrix %d component %d' % (ei, i, k), want, got)
                         break
                 if bad:
@@ -162,7 +163,7 @@ def check_config(db, rep, cfg, tier):
                 if S:
                     want = want + Poly.var('InteractionsScalar[%d,%d,%s]' % (ei, is_, tk))
                 got = yout.cell(idx).value
-                if not (isinstance(got, Poly) and got.equals(want)):
+                if not (same(got, want)):
                     bad = ('scalar node %d index %d' % (ei, is_), want, got)
                     break
             if bad:
